@@ -795,6 +795,20 @@ class C17(Prop):
         for j in range(pad + 1):
             lay.append((f"accessor: frame with the tensor in row 0 followed by {pad} all-zero rows", 0 if j == 0 else None,
                         allrows[0] if j == 0 else zero, w[j], v[j]))
+        # ONE frame object used repeatedly: evaluated, its Voigt columns overwritten in place with other tensors of the
+        # case, evaluated again (the accessor returns the numbers of the frame as it is at the call; a result remembered
+        # for the frame object - seeded change C17-m6 - gives the numbers of the earlier contents)
+        live = frame([allrows[0]], case["index"], case.get("colorder") or CANONICAL)
+        accessor_values(live, out["notes"])
+        for i in [k for k in (len(allrows) - 1, pad % n) if k != 0][:2]:
+            for c, x in zip(COLS, allrows[i]):
+                live[c] = np.array([x], dtype=float) if (i + pad) % 2 else live[c] * 0.0 + x
+            w, v, problems = accessor_values(live, out["notes"])
+            out["problems"] = out["problems"] + [f"frame modified in place: {p}" for p in problems]
+            lay.append(("accessor on a frame evaluated before and then overwritten in place with this tensor", i, allrows[i], w[0], v[0]))
+        live.loc[:, COLS] = np.asarray([allrows[0]], dtype=float)
+        w, v, problems = accessor_values(live, out["notes"])
+        lay.append(("accessor on a frame overwritten in place (df.loc[:, cols] = values) with this tensor", 0, allrows[0], w[0], v[0]))
         return lay
 
     def _other_dtypes(self, case, allrows, out):
